@@ -107,6 +107,7 @@ def decode_num(tok):
     return None
 
 F64_MAX = Fraction(2) ** 1024
+F64_TINY = Fraction(1, 2 ** 1075)
 
 def num_eq(a, b, tol, scale=Fraction(0)):
     """a: implementation value, b: model value.  tol None = exact."""
@@ -118,6 +119,9 @@ def num_eq(a, b, tol, scale=Fraction(0)):
             return False
         return a.v == b.v
     if a.v == b.v:
+        return True
+    # decimal text below the subnormal range rounds to zero / the nearest subnormal: half the smallest subnormal is the absolute floor
+    if abs(a.v - b.v) <= F64_TINY:
         return True
     if tol is None:
         return False
